@@ -24,40 +24,38 @@ ASSUMPTIONS = ["tokio runs each spawned task independently; a panic in a task do
 
 
 def r1(ctx):
-    rep = Report("C18.R1", "handle_frame: Err -> stop, nothing executed; Ok(None) -> stop, nothing executed; Ok(Some(req)) -> exactly one handle_request(req)", floor=3)
-    f = ctx.facts
-    cases = {
-        "Err": VErr(P("error")),
-        "Ok(None)": VOk(NoneV()),
-        "Ok(Some)": VOk(VSome(P("request"))),
+    rep = Report("C18.R1", "per frame: read error / end of stream / idle timeout -> the task ends, nothing executed; a decoded request -> exactly one handle_request(req)", floor=3)
+    b, rs = c12.rounds(ctx)
+    rep.analysed(b)
+    rep.evaluations += len(rs)
+    want = {
+        "Err": ("read-error", "a failed read closes the connection without executing anything"),
+        "Ok(None)": ("eof", "a clean end of stream closes the connection without executing anything"),
+        "timeout": ("timeout", "an idle timeout closes the connection without executing anything"),
     }
-    for name, val in cases.items():
-        b, paths, I = c12.client_paths(ctx, c12.HF_, request=val)
-        rep.analysed(b)
-        rep.evaluations += len(paths)
-        if not paths:
-            rep.bad("handle_frame[%s]:no-path" % name, "cannot evaluate handle_frame for %s" % name, b.loc())
-            continue
-        ok = True
-        why = ""
-        for p in paths:
-            kinds = [a for a, _ in c12.summarize(p)]
-            if name in ("Err", "Ok(None)"):
-                if kinds or tform(p.ret) != 1 or p.cut:
-                    ok = False
-                    why = "actions %s, returns %s" % (kinds, short(p.ret, 20))
-            else:
-                nd = kinds.count("dispatch")
-                quitq = "dispatch" not in kinds and "shutdown" in kinds
-                if not (nd == 1 or quitq) or p.cut:
-                    ok = False
-                    why = "request dispatched %d times" % nd
-                disp = [e for a, e in c12.summarize(p) if a == "dispatch"]
-                if disp and tform(disp[0].args[1]) != P("request"):
-                    ok = False
-                    why = "dispatches %s" % short(disp[0].args[1], 40)
-        want = {"Err": "a failed read closes the connection without executing anything", "Ok(None)": "a clean end of stream closes the connection without executing anything", "Ok(Some)": "a decoded request is executed exactly once"}[name]
-        rep.check(ok, "handle_frame[%s]" % name, want, "handle_frame(%s): %s — expected: %s" % (name, why, want), b.loc())
+    for name, (frame, what) in want.items():
+        sel = [r for r in rs if r["frame"] == frame]
+        ok = bool(sel)
+        why = "no such path"
+        for r in sel:
+            acts = [k for k in r["kinds"] if k not in ("read_frame-call", "read")]
+            if acts or not r["ends"]:
+                ok = False
+                why = "actions %s, the task %s" % (acts, "ends" if r["ends"] else "continues reading")
+        rep.check(ok, "handle_frame[%s]" % name, what, "frame outcome %s: %s — expected: %s" % (name, why, what), b.loc())
+    sel = [r for r in rs if r["frame"] == "request"]
+    ok = bool(sel)
+    why = "no path handles a decoded request"
+    for r in sel:
+        nd = r["kinds"].count("dispatch")
+        quitq = r["quitq"] and nd == 0 and "shutdown" in r["kinds"]
+        if not (nd == 1 or quitq) or (r["cut"] and not str(r["cut"]).startswith("loop")):
+            ok = False
+            why = "request dispatched %d times" % nd
+        if r["disp"] and tform(r["disp"][0].args[1]) != r["req"]:
+            ok = False
+            why = "dispatches %s" % short(r["disp"][0].args[1], 40)
+    rep.check(ok, "handle_frame[Ok(Some)]", "a decoded request is executed exactly once", "decoded request: %s — expected: executed exactly once" % why, b.loc())
     return rep
 
 
@@ -154,9 +152,10 @@ def r4(ctx):
     def is_exit(name, t=None):
         return name in ("std::process::exit", "std::process::abort", "core::intrinsics::abort", "std::intrinsics::abort", "libc::exit", "libc::abort")
 
-    for root in (c12.HL, c12.HF_, c12.HR, c09.READ_FRAME, SERVER + "::run::{closure#0}", HANDLER + "::handle_request"):
+    # (the private steps of the connection task are reached from Client::handle; they are listed when they exist)
+    for root in [r_ for r_ in (c12.HL, c12.HF_, c12.HR, c09.READ_FRAME, SERVER + "::run::{closure#0}", HANDLER + "::handle_request") if r_ in f.bodies or r_ in (c12.HL, c09.READ_FRAME, SERVER + "::run::{closure#0}", HANDLER + "::handle_request")]:
         w = cg.may_reach_ext(root, is_exit)
-        rep.check(w is None, "no-exit:%s" % root.split("::")[-2], "no process exit/abort reachable", "process exit/abort is reachable from %s: %s — one connection can take the server down" % (root, " -> ".join(w) if w else ""), f.one(root).loc())
+        rep.check(w is None, "no-exit:%s" % root.split("::")[-2], "no process exit/abort reachable", "process exit/abort is reachable from %s: %s — one connection can take the server down" % (root, " -> ".join(w) if w else ""), safe_loc(f, root))
     return rep
 
 
